@@ -40,6 +40,7 @@ def run(ctx: Context) -> None:
     ctx.rule("C13c", "keys read unconditionally from params/_params/_get_all_params by a step exist for every class registered with it; **instruction.params binds the callee's keywords")
     ctx.rule("C13d", "no interpreted call passes an njit function a list that is empty for some cutoff >= 1")
     ctx.rule("C13e", "steps admitted with shots=None never use shots numerically without a dominating None test; other measurement steps are unreachable with shots=None")
+    ctx.rule("C13g", "accumulator protocol for every cutoff >= 1: a constant index written to connector.accumulator(size=cutoff) is below the size, and the start of a connector.range does not exceed its limit (fixed-size tf.TensorArray, tf.range)")
     ctx.rule("C13f", "non-negative, < d and pairwise-distinct modes are established on every route to execution")
     ctx.count("simulators", len(reg.simulators))
     ctx.require_floor("simulator classes with _instruction_map", len(reg.simulators), 6)
@@ -51,6 +52,7 @@ def run(ctx: Context) -> None:
     clause_d(ctx, idx, reg)
     shotsmod.check_shots_none(ctx, idx, reg, "C13e")
     clause_f(ctx, idx, reg)
+    clause_g(ctx, idx)
 
 
 # ================================================================================================ (a)
@@ -937,3 +939,108 @@ def clause_f(ctx: Context, idx, reg) -> None:
                 f"public routes set modes without it: {lacking} (Q.__init__ tests it, so `Q(...) | instr` is covered; "
                 f"`instr.on_modes(...)`, the setter and from_dict are not)",
                 f"{p} not in {sorted(choke_preds)}")
+
+
+# ================================================================================================ (g)
+def _min_cutoff_at(fn: FuncInfo, target: ast.AST, var: str = "cutoff") -> int:
+    """Smallest value of `var` (>= 1) with which `target` can be reached, from the guards that enclose or precede it:
+    `if var == c: return/raise`, `if var < c: return/raise`, `if var <= c: ...`, and nesting under `if var > c:` / `>= c`."""
+    lo = 1
+
+    def cmp_of(test: ast.AST) -> Optional[Tuple[str, int]]:
+        if isinstance(test, ast.Compare) and len(test.ops) == 1 and isinstance(test.left, ast.Name) and test.left.id == var \
+                and isinstance(test.comparators[0], ast.Constant) and isinstance(test.comparators[0].value, int):
+            return type(test.ops[0]).__name__, test.comparators[0].value
+        return None
+
+    def leaves(stmts: List[ast.stmt]) -> bool:
+        return bool(stmts) and isinstance(stmts[-1], (ast.Return, ast.Raise))
+
+    def contains(stmts: List[ast.stmt]) -> bool:
+        return any(target is x for s in stmts for x in ast.walk(s))
+
+    def walk(stmts: List[ast.stmt], lo: int) -> Optional[int]:
+        for s in stmts:
+            if any(target is x for x in ast.walk(s)):
+                if isinstance(s, ast.If):
+                    c = cmp_of(s.test)
+                    if contains(s.body):
+                        l2 = lo
+                        if c:
+                            op, k = c
+                            l2 = max(lo, k + 1) if op == "Gt" else max(lo, k) if op == "GtE" else (max(lo, k) if op == "Eq" else lo)
+                        return walk(s.body, l2)
+                    if contains(s.orelse):
+                        l2 = lo
+                        if c:
+                            op, k = c
+                            l2 = max(lo, k + 1) if op == "LtE" else max(lo, k) if op == "Lt" else (k + 1 if op == "Eq" and k == lo else lo)
+                        return walk(s.orelse, l2)
+                    return lo
+                for field in ("body", "orelse", "finalbody"):
+                    sub = getattr(s, field, None)
+                    if isinstance(sub, list) and sub and isinstance(sub[0], ast.stmt) and contains(sub):
+                        return walk(sub, lo)
+                return lo
+            if isinstance(s, ast.If) and leaves(s.body) and not s.orelse:
+                c = cmp_of(s.test)
+                if c:
+                    op, k = c
+                    if op == "Eq" and k == lo:
+                        lo = k + 1
+                    elif op == "Lt":
+                        lo = max(lo, k)
+                    elif op == "LtE":
+                        lo = max(lo, k + 1)
+        return lo
+
+    r = walk(list(fn.node.body), lo)
+    return lo if r is None else r
+
+
+def clause_g(ctx: Context, idx) -> None:
+    """Accumulator protocol: `acc = connector.accumulator(size=cutoff)` may be a fixed-size array (tf.TensorArray) and
+    `connector.range` may be tf.range, which refuses start > limit.  For every cutoff >= 1 that reaches them, a constant
+    index written to the accumulator must be below its size and the start of a connector.range must not exceed its limit."""
+    n_acc = n_writes = n_ranges = 0
+    for fn in idx.all_functions():
+        accs: Dict[str, ast.AST] = {}
+        for n in walk_no_nested(fn.node):
+            if isinstance(n, ast.Assign) and len(n.targets) == 1 and isinstance(n.targets[0], ast.Name) and isinstance(n.value, ast.Call) \
+                    and (dotted(n.value.func) or "").endswith(".accumulator"):
+                size = next((k.value for k in n.value.keywords if k.arg == "size"), n.value.args[1] if len(n.value.args) > 1 else None)
+                if size is not None:
+                    accs.setdefault(n.targets[0].id, size)
+        if not accs:
+            continue
+        n_acc += len(accs)
+        for n in walk_no_nested(fn.node):
+            if isinstance(n, ast.Call) and (dotted(n.func) or "").endswith(".write_to_accumulator") and len(n.args) >= 2 \
+                    and isinstance(n.args[0], ast.Name) and n.args[0].id in accs:
+                size = accs[n.args[0].id]
+                i = n.args[1]
+                if isinstance(i, ast.Constant) and isinstance(i.value, int) and isinstance(size, ast.Name):
+                    n_writes += 1
+                    lo = _min_cutoff_at(fn, n, size.id)
+                    ok = i.value < lo
+                    key = f"{fn.qualname}|write index {i.value} into accumulator of size {size.id}"
+                    ctx.obligation("C13g", key, ok, f"{ctx.relpath(fn.file)}:{n.lineno}", smallest_size_reaching_the_write=lo)
+                    if not ok:
+                        ctx.violation("C13g", key, fn.file, n.lineno,
+                                      f"index {i.value} is written into an accumulator of size `{size.id}`, which can be {lo} here: a fixed-size "
+                                      f"accumulator (tf.TensorArray) refuses the write, so a valid program fails at {size.id} = {lo}",
+                                      norm(n)[:120])
+            if isinstance(n, (ast.For,)) and isinstance(n.iter, ast.Call) and (dotted(n.iter.func) or "").endswith("connector.range") \
+                    and len(n.iter.args) == 2 and isinstance(n.iter.args[0], ast.Constant) and isinstance(n.iter.args[0].value, int) \
+                    and isinstance(n.iter.args[1], ast.Name):
+                n_ranges += 1
+                lo = _min_cutoff_at(fn, n, n.iter.args[1].id)
+                a = n.iter.args[0].value
+                ok = a <= lo
+                key = f"{fn.qualname}|connector.range({a}, {n.iter.args[1].id})"
+                ctx.obligation("C13g", key, ok, f"{ctx.relpath(fn.file)}:{n.lineno}", smallest_limit_reaching_the_loop=lo)
+                if not ok:
+                    ctx.violation("C13g", key, fn.file, n.lineno,
+                                  f"`{norm(n.iter)}` is reached with {n.iter.args[1].id} = {lo} < {a}: tf.range (the TensorFlow connector's range) "
+                                  f"refuses start > limit, so a valid program fails at {n.iter.args[1].id} = {lo}", norm(n.iter))
+    ctx.require_floor("C13g accumulators / constant-index writes / connector.range loops", n_acc + n_writes + n_ranges, 6)
